@@ -367,3 +367,37 @@ def confirm_nonce(ses, v):
 
 
 PY_CONFIRM.update({'c10': confirm_nonce})
+
+
+# ----------------------------------------------------------------------------- claims round trip (C14)
+def confirm_claims_roundtrip(ses, v):
+    vals = [None, True, 0, 1, -7, 'x', '', 'ünï', [1, 'a', None], {'n': {'m': [1, {'z': None}]}}, {}, []]
+    keys = ['a', 'a/b', 'https://example.com/role', 'a~0b', '~1', 'ключ', 'x.y', ' ']
+    seqs = []
+    for k in keys:
+        for val in vals: seqs.append(([['set', k, val], ['build']], {k: val}))
+    seqs.append(([['set', 'a', 1], ['set', 'a', 2], ['build']], {'a': 2}))
+    seqs.append(([['set', 'a', 1], ['set', 'b', None], ['remove', 'a'], ['build']], {'b': None}))
+    seqs.append(([['set', 'iss', 'me'], ['set', 'sub', 's'], ['set', 'aud', 'au'], ['set', 'jti', 'id'], ['set', 'exp', '2031-01-01T00:00:00Z'], ['set', 'nbf', '2020-01-01T00:00:00Z'], ['set', 'iat', '2020-01-01T00:00:00Z'], ['build']],
+                 {'iss': 'me', 'sub': 's', 'aud': 'au', 'jti': 'id', 'exp': '2031-01-01T00:00:00Z', 'nbf': '2020-01-01T00:00:00Z', 'iat': '2020-01-01T00:00:00Z'}))
+    for proto in ([v['replay'].get('proto')] if v['replay'].get('proto') else ['v4.local', 'v4.public']):
+        out = run_native({'steps': [{'op': 'builder_seqs', 'proto': proto, 'layer': 'generic', 'seed': '07' * 48, 'seqs': [s_ for s_, _ in seqs], 'out': 'B'}], 'violated_if': []})
+        ses.native_runs = getattr(ses, 'native_runs', 0) + 1
+        res = (out.get('trace') or [{}])[0].get('results')
+        if res is None: v['native'] = out; return None
+        for (seq, want), item in zip(seqs, res):
+            b = [o for o in item['outs'] if 'build' in o]
+            bad = None
+            if not b or b[-1]['build'] != 'ok': bad = 'build fails: %s' % (b[-1] if b else item['outs'])
+            else:
+                p = b[-1].get('payload', '')
+                try: got = json.loads(p[3:-1]) if p.startswith('Ok(') else None
+                except Exception: got = None
+                if got != want: bad = 'parsed claims %s differ from the claims set %s' % (p[:120], json.dumps(want))
+            if bad:
+                v['native'] = {'proto': proto, 'sequence': seq, 'violated': bad}; v['what'] += ' [natively: %s: %s]' % (json.dumps(seq), bad); v['replay'] = {'kind': 'c14', 'proto': proto}
+                return True
+    return False
+
+
+PY_CONFIRM.update({'c14': confirm_claims_roundtrip})
